@@ -450,7 +450,7 @@ pub fn arb_case(max_ops: usize, history: bool, max_seq: u16) -> impl Strategy<Va
 // reports, the import policy it applies) for peer-learned, API and kernel paths alike
 // ---------------------------------------------------------------------------
 
-pub const TM_RULE: &str = "tm-eligibility: TableManager histories over 3 peers plus the API source and the kernel source (insert / replace / remove, import-policy soft reset, next-hop reachability reports before and after the paths arrive). After every step no ranked (exportable) path of any prefix has a next hop that is currently reported unreachable, whatever its source and whatever came first, the report or the path; and the ranking the TableManager hands out is in the reference decision order restricted to what the check can see without the harness's own bookkeeping (LOCAL_PREF, AS_PATH length, ORIGIN). non-trivial := a path of the API or kernel source is inserted while its next hop is reported unreachable";
+pub const TM_RULE: &str = "tm-eligibility: TableManager histories over 3 peers plus the API source and the kernel source (insert / replace / remove, import-policy soft reset, next-hop reachability reports before and after the paths arrive). After every step no ranked (exportable) path of any prefix has a next hop that is currently reported unreachable, whatever its source and whatever came first, the report or the path; and the ranking the TableManager hands out is in the reference decision order restricted to what the check can see without the harness's own bookkeeping (LOCAL_PREF, AS_PATH length, ORIGIN), and there is one ranked list per prefix (paths with different path identifiers compete with each other). non-trivial := a path of the API or kernel source is inserted while its next hop is reported unreachable";
 
 #[derive(Clone, Debug, Serialize, Deserialize)]
 pub struct TmCase {
@@ -472,7 +472,14 @@ pub fn check_tm(c: &TmCase) -> CheckResult {
         rig.apply(op);
         let invalid = tmv::nexthop_invalid(&rig.tm);
         for family in [packet::Family::IPV4, packet::Family::IPV6] {
+            let mut seen: Vec<String> = Vec::new();
             for ch in rig.tm.collect_loc_rib_paths(family) {
+                // one ranking per prefix: all paths of a prefix (whatever their path identifiers) compete in one list
+                let k = format!("{:?}", ch.net);
+                if seen.contains(&k) {
+                    return Err(Failure::new("split-ranking", format!("step #{i} ({op:?}): {k} has more than one ranked list (its paths are ranked apart from each other: {} paths in this one)", ch.current_paths.len())).with("step", "tm"));
+                }
+                seen.push(k);
                 let mut prev: Option<(std::cmp::Reverse<u32>, usize, u32)> = None;
                 for p in ch.current_paths.iter() {
                     if let Some(nh) = p.nexthop
